@@ -381,7 +381,7 @@ def run_c32(ctx, replay):
 # ----------------------------------------------------------------------------- C21
 
 def run_c21(ctx, replay):
-    r2, r3, rich = (4, 2, "TRUE") if ctx.thorough() else (3, 1, "FALSE")
+    r2, r3, rich = (4, 1, "TRUE") if ctx.thorough() else (3, 1, "FALSE")
     consts = "CONSTANT R2 = %d\nCONSTANT R3 = %d\nCONSTANT Rich = %s\n" % (r2, r3, rich)
     binary = build(ctx)
     mc = None
